@@ -181,6 +181,12 @@ class Lexer:
                     % (node.keyword, self.control_line[-1].keyword),
                     **self.exception_kwargs,
                 )
+            elif not self.control_line:
+                raise exceptions.SyntaxException(
+                    "Keyword '%s' without a control structure to continue"
+                    % node.keyword,
+                    **self.exception_kwargs,
+                )
 
     _coding_re = re.compile(r"#.*coding[:=]\s*([-\w.]+).*\r?\n")
 
